@@ -211,6 +211,7 @@ func (s *session) runV2(name string, op J) J {
 			r["items"] = v2Items(o.Items)
 			r["count"] = o.Count
 			r["lek"] = itemFromV2(o.LastEvaluatedKey)
+			r["lek_nil"] = o.LastEvaluatedKey == nil
 		}
 		return r
 	case "scan":
@@ -227,6 +228,7 @@ func (s *session) runV2(name string, op J) J {
 			r["items"] = v2Items(o.Items)
 			r["count"] = o.Count
 			r["lek"] = itemFromV2(o.LastEvaluatedKey)
+			r["lek_nil"] = o.LastEvaluatedKey == nil
 		}
 		return r
 	case "batch_write":
